@@ -24,6 +24,8 @@ type c06Case struct {
 	Code    []byte     `json:"code"`
 	Origin  string     `json:"origin"`
 	Failing string     `json:"failing"` // "", "secret", "suite", "input": why generation is expected to fail
+	// an operation of another family run immediately before the call (see disturb; omitted = none)
+	Before int `json:"before,omitempty"`
 }
 
 func checkC06(c c06Case) verdict {
@@ -38,6 +40,7 @@ func checkC06(c c06Case) verdict {
 		labels = append(labels, "constructor-error")
 	}
 	in := toLibIn(c.In)
+	disturb(c.Before)
 	g, gerr := otp.GenerateOCRA(c.Secret, suite, in)
 	got, err := otp.ValidateOCRA(c.Secret, string(c.Code), suite, in)
 	if gerr != nil {
@@ -109,6 +112,12 @@ var c06Main = newPart("C06", "main",
 	checkC06)
 
 func genC06(t *rapid.T) c06Case {
+	c := genC06Base(t)
+	c.Before = drawDisturb(t) // drawn last: the cases of a seed are otherwise what they were
+	return c
+}
+
+func genC06Base(t *rapid.T) c06Case {
 	c := c06Case{Suite: drawSuite(t)}
 	key := gen.Key().Draw(t, "key")
 	_, cfg, lerr := c.Suite.resolve()
